@@ -48,20 +48,15 @@ def _should_skip_initializer(initializer: ir.Value, size_limit: int) -> bool:
 
 
 def _tobytes(val):
-    """StringTensor does not support tobytes. Use 'string_data' instead.
+    """Return a hashable value that identifies the content of the tensor.
 
-    However, 'string_data' yields a list of bytes which cannot be hashed, i.e.,
-    cannot be used to index into a dict. To generate keys for identifying
-    tensors in initializer deduplication the following converts the list of
-    bytes to an array of fixed-length strings which can be flattened into a
-    bytes-string. This, together with the tensor shape, is sufficient for
-    identifying tensors for deduplication, but it differs from the
-    representation used for serializing tensors (that is string_data) by adding
-    padding bytes so that each string occupies the same number of consecutive
-    bytes in the flattened .tobytes representation.
+    StringTensor does not support tobytes: for a string tensor the tuple of its
+    elements ('string_data') is used. (Flattening the strings into a fixed-width
+    numpy array would pad every element with NUL bytes up to the longest one, so
+    that e.g. [b"a\x00", b"bb"] and [b"a", b"bb"] could not be told apart.)
     """
     if val.dtype.is_string():
-        return np.array(val.string_data()).tobytes()
+        return tuple(val.string_data())
     return val.tobytes()
 
 
@@ -146,8 +141,15 @@ class DeduplicateHashedInitializersPass(ir.passes.InPlacePass):
 
                 # Hash tensor data to avoid storing large amounts of data in memory
                 hashed = hashlib.sha512()
-                tensor_data = const_val.numpy()
-                hashed.update(tensor_data)
+                if const_val.dtype.is_string():
+                    # The numpy array of a string tensor holds objects (its buffer is
+                    # their addresses): hash the strings themselves, length-prefixed.
+                    for string in const_val.string_data():
+                        hashed.update(len(string).to_bytes(8, "little"))
+                        hashed.update(string)
+                else:
+                    tensor_data = const_val.numpy()
+                    hashed.update(tensor_data)
                 tensor_digest = hashed.hexdigest()
 
                 tensor_dims = tuple(const_val.shape.numpy())
